@@ -11,7 +11,7 @@ Extraction "c17_model.ml"
   c17_default_cstyle c17_default_rstyle c17_default_eps c17_ops_default c17_ops_set_eps
   c17_ops_eq c17_ops_ne c17_ops_gt c17_ops_lt c17_ops_ge c17_ops_le c17_ops_round c17_ops_trunc
   c17_vcisnan c17_vcisinf c17_vcisfinite c17_visunordered1 c17_isign_src c17_binomial_nn_src
-  c17_round c17_trunc c17_binomial_fix c17_round_fix c17_trunc_fix c17_fpower c17_fsign
+  c17_round c17_trunc c17_binomial_fix c17_round_fix c17_trunc_fix c17_trunc_v2 c17_fpower c17_fsign
   c17_isnan c17_isinf c17_isfinite c17_isunordered c17_visnan c17_visinf c17_visfinite
   c17_cisnan c17_cisinf c17_cisfinite
   c17_of_bits c17_to_bits c17_of_Z
